@@ -413,16 +413,35 @@ func (r *run) judge(route string, x absQuery, o outcome, detail string) {
 			}
 		}
 	case "fail":
-		best := []string{"no-failure-recorded"}
+		// The synthesized SERVFAIL does not say which failure entry produced it: the reply is
+		// acceptable iff SOME recorded failure has this question and audience.  Otherwise the
+		// closest recorded identity names the violated dimension (ties broken in a fixed order so
+		// that the digest is stable).
+		rank := map[string]int{"name": 0, "scope": 1, "cd": 2, "class": 3, "type": 4}
+		less := func(a, b []string) bool {
+			if len(a) != len(b) {
+				return len(a) < len(b)
+			}
+			for i := range a {
+				if rank[a[i]] != rank[b[i]] {
+					return rank[a[i]] < rank[b[i]]
+				}
+			}
+			return false
+		}
+		var best []string
 		for i := range r.failsEver {
-			f := &r.failsEver[i]
-			d := r.dimsPos(f, x)
+			d := r.dimsPos(&r.failsEver[i], x)
 			if len(d) == 0 {
 				return
 			}
-			if best[0] == "no-failure-recorded" || len(d) < len(best) {
+			sort.Slice(d, func(i, j int) bool { return rank[d[i]] < rank[d[j]] })
+			if best == nil || less(d, best) {
 				best = d
 			}
+		}
+		if best == nil {
+			best = []string{"nothing-recorded"}
 		}
 		violate("fail", best, fmt.Sprintf("a cached-failure reply although no failure was ever recorded for this question and audience (closest recorded differs in %s)", strings.Join(best, ",")))
 	}
